@@ -733,4 +733,212 @@ theorem lcGo_spec : ∀ (rest pre : Pool) (best : Res) (count : Nat) (least : Op
         · exact h5 v hv ha
         · simp at hv; subst hv; rw [ha] at hu; exact absurd rfl hu
 
+/-! ### random_choose: a non-empty reservoir yields an upstream -/
+
+/-- the result is an upstream, or the draws ran out -/
+def Res.fine : Res → Bool
+  | .sel _ => true
+  | .starved => true
+  | _ => false
+
+theorem lrPick_fine {best : List Nat} (ds : List Nat) (h : best ≠ []) : (lrPick best ds).1.fine = true := by
+  unfold lrPick
+  split
+  · exact absurd rfl h
+  · rfl
+  · split
+    · rfl
+    · rename_i j ds' hj
+      have hlen : 0 < best.length := List.length_pos_iff.2 h
+      have := intn_lt hlen hj
+      split
+      · rfl
+      · rename_i hnone
+        have := List.getElem?_eq_none_iff.1 hnone
+        omega
+
+theorem leastRequests_fine {ch : List Cand} (ds : List Nat) (h : ch ≠ []) : (leastRequests ch ds).1.fine = true := by
+  unfold leastRequests
+  split
+  · rename_i h0; exact absurd (List.length_eq_zero_iff.1 h0) h
+  · have hs := lrGo_spec ch [] [] none (Or.inl ⟨rfl, rfl, rfl⟩)
+    simp only [List.nil_append] at hs
+    split
+    · rfl
+    · rename_i best hb
+      rw [hb] at hs
+      simp only [LrPost] at hs
+      rcases hs with ⟨h1, _⟩ | ⟨h1, _⟩
+      · exact absurd h1 h
+      · exact lrPick_fine ds h1
+
+theorem numAvail_pos {pool : Pool} (h : anyAvail pool = true) : 0 < numAvail pool := by
+  obtain ⟨v, hv, ha⟩ := anyAvail_iff.1 h
+  unfold numAvail
+  exact List.length_pos_iff.2 (List.ne_nil_of_mem (List.mem_filter.2 ⟨hv, ha⟩))
+
+theorem selRandomChoose_fine {k : Nat} {pool : Pool} (ds : List Nat) (hk : 1 ≤ k) (h : anyAvail pool = true) :
+    (selRandomChoose k pool ds).1.fine = true := by
+  unfold selRandomChoose
+  split
+  · rfl
+  · rename_i ch ds' hrc
+    have := rcGo_inv (min k pool.length) pool [] [] 0 ds ch ds' ⟨by simp, by simp⟩ (by simp) (by simp [numAvail])
+      (by simpa using hrc)
+    simp only [List.nil_append] at this
+    have hpos := numAvail_pos h
+    have hlen : 0 < pool.length := by
+      obtain ⟨v, hv, _⟩ := anyAvail_iff.1 h
+      exact List.length_pos_iff.2 (List.ne_nil_of_mem hv)
+    apply leastRequests_fine
+    intro hnil
+    rw [hnil] at this
+    simp at this
+    omega
+
+/-- random_choose never panics -/
+theorem selRandomChoose_noPanic (k : Nat) (pool : Pool) (ds : List Nat) : (selRandomChoose k pool ds).1.isPanic = false := by
+  unfold selRandomChoose
+  split
+  · rfl
+  · rename_i ch ds' _
+    by_cases h : ch = []
+    · subst h; simp [leastRequests, Res.isPanic]
+    · have := leastRequests_fine ds' h
+      revert this
+      cases (leastRequests ch ds').1 <;> simp [Res.fine, Res.isPanic]
+
+/-! ### rendezvous hashing on upstream records -/
+
+/-- `best` (an index) and `bu` (a record) denote the same upstream of `pool` -/
+def Corr (pool : Pool) (r : Res) (o : Option Up) : Prop :=
+  (r = .none ∧ o = none) ∨ (∃ j u, r = .sel j ∧ o = some u ∧ pool[j]? = some u)
+
+theorem hashGo_hrw : ∀ (rest pre : Pool) (hi : Nat) (best : Res) (bu : Option Up),
+    Corr (pre ++ rest) best bu → Corr (pre ++ rest) (hashGo rest pre.length hi best) (hrw rest hi bu)
+  | [], pre, hi, best, bu, h => by simpa [hashGo, hrw] using h
+  | u :: rest, pre, hi, best, bu, h => by
+    unfold hashGo hrw
+    split
+    · have := hashGo_hrw rest (pre ++ [u]) u.h (.sel pre.length) (some u)
+      rw [snoc_append, snoc_length] at this
+      exact this (Or.inr ⟨pre.length, u, rfl, rfl, by simp⟩)
+    · have := hashGo_hrw rest (pre ++ [u]) hi best bu
+      rw [snoc_append, snoc_length] at this
+      exact this h
+
+theorem selHash_hashPick (pool : Pool) : Corr pool (selHash pool) (hashPick pool) := by
+  have := hashGo_hrw pool [] 0 .none none (Or.inl ⟨rfl, rfl⟩)
+  simpa [selHash, hashPick] using this
+
+/-- the occurrence `u` between `A` and `B` wins the rendezvous started with `hi` -/
+def Win (hi : Nat) (A : Pool) (u : Up) (B : Pool) : Prop :=
+  u.avail = true ∧ hi < u.h ∧ (∀ a ∈ A, a.avail = true → a.h < u.h) ∧ (∀ b ∈ B, b.avail = true → b.h ≤ u.h)
+
+theorem hrw_keep : ∀ (B : Pool) (hi : Nat) (best : Option Up), (∀ b ∈ B, b.avail = true → b.h ≤ hi) → hrw B hi best = best
+  | [], _, _, _ => rfl
+  | b :: B, hi, best, h => by
+    unfold hrw
+    split
+    · rename_i hb
+      simp at hb
+      have := h b (List.mem_cons_self ..) hb.1
+      omega
+    · exact hrw_keep B hi best (fun x hx => h x (List.mem_cons_of_mem _ hx))
+
+theorem hrw_of_win : ∀ (A : Pool) (u : Up) (B : Pool) (hi : Nat) (best : Option Up),
+    Win hi A u B → hrw (A ++ u :: B) hi best = some u
+  | [], u, B, hi, best, ⟨h1, h2, _, h4⟩ => by
+    simp only [List.nil_append]
+    unfold hrw
+    rw [if_pos (by simp [h1, h2])]
+    exact hrw_keep B u.h (some u) h4
+  | a :: A, u, B, hi, best, ⟨h1, h2, h3, h4⟩ => by
+    simp only [List.cons_append]
+    unfold hrw
+    split
+    · rename_i ha
+      simp at ha
+      exact hrw_of_win A u B a.h (some a)
+        ⟨h1, h3 a (List.mem_cons_self ..) ha.1, fun x hx => h3 x (List.mem_cons_of_mem _ hx), h4⟩
+    · exact hrw_of_win A u B hi best ⟨h1, h2, fun x hx => h3 x (List.mem_cons_of_mem _ hx), h4⟩
+
+theorem win_of_hrw : ∀ (P : Pool) (hi : Nat) (best : Option Up) (u : Up), hrw P hi best = some u →
+    (best = some u ∧ ∀ p ∈ P, p.avail = true → p.h ≤ hi) ∨ ∃ A B, P = A ++ u :: B ∧ Win hi A u B
+  | [], hi, best, u, h => by
+    simp [hrw] at h
+    exact Or.inl ⟨h, fun p hp => by cases hp⟩
+  | p :: P, hi, best, u, h => by
+    unfold hrw at h
+    split at h
+    · rename_i hp
+      simp at hp
+      rcases win_of_hrw P p.h (some p) u h with ⟨h1, h2⟩ | ⟨A, B, h1, h2, h3, h4, h5⟩
+      · simp at h1
+        subst h1
+        exact Or.inr ⟨[], P, rfl, hp.1, hp.2, fun a ha => (by cases ha), h2⟩
+      · subst h1
+        refine Or.inr ⟨p :: A, B, rfl, h2, by omega, ?_, h5⟩
+        intro a ha hav
+        rcases List.mem_cons.1 ha with ha | ha
+        · subst ha; exact h3
+        · exact h4 a ha hav
+    · rename_i hp
+      have hple : p.avail = true → p.h ≤ hi := by
+        intro hav
+        simp [hav] at hp
+        exact hp
+      rcases win_of_hrw P hi best u h with ⟨h1, h2⟩ | ⟨A, B, h1, h2, h3, h4, h5⟩
+      · refine Or.inl ⟨h1, ?_⟩
+        intro x hx hav
+        rcases List.mem_cons.1 hx with hx | hx
+        · subst hx; exact hple hav
+        · exact h2 x hx hav
+      · subst h1
+        refine Or.inr ⟨p :: A, B, rfl, h2, h3, ?_, h5⟩
+        intro a ha hav
+        rcases List.mem_cons.1 ha with ha | ha
+        · subst ha; have := hple hav; omega
+        · exact h4 a ha hav
+
+/-- rendezvous hashing picks `u` iff some occurrence of `u` is available, has a non-zero hash,
+    beats every available upstream before it and is not beaten by any after it -/
+theorem hashPick_iff (P : Pool) (u : Up) : hashPick P = some u ↔ ∃ A B, P = A ++ u :: B ∧ Win 0 A u B := by
+  constructor
+  · intro h
+    rcases win_of_hrw P 0 none u h with ⟨h1, _⟩ | h
+    · cases h1
+    · exact h
+  · rintro ⟨A, B, h1, h2⟩
+    subst h1
+    exact hrw_of_win A u B 0 none h2
+
+theorem hrw_none : ∀ (P : Pool) (hi : Nat) (best : Option Up), hrw P hi best = none →
+    best = none ∧ ∀ p ∈ P, p.avail = true → p.h ≤ hi
+  | [], hi, best, h => by simp [hrw] at h; exact ⟨h, fun p hp => by cases hp⟩
+  | p :: P, hi, best, h => by
+    unfold hrw at h
+    split at h
+    · have := (hrw_none P p.h (some p) h).1
+      cases this
+    · rename_i hp
+      obtain ⟨h1, h2⟩ := hrw_none P hi best h
+      refine ⟨h1, ?_⟩
+      intro x hx hav
+      rcases List.mem_cons.1 hx with hx | hx
+      · subst hx; simp [hav] at hp; exact hp
+      · exact h2 x hx hav
+
+theorem selHash_none {pool : Pool} (h : selHash pool = .none) : ∀ p ∈ pool, p.avail = true → p.h = 0 := by
+  have hc := selHash_hashPick pool
+  rw [h] at hc
+  rcases hc with ⟨_, h2⟩ | ⟨j, u, h1, _⟩
+  · intro p hp hav
+    have := (hrw_none pool 0 none h2).2 p hp hav
+    omega
+  · cases h1
+
+theorem selHash_noPanic (pool : Pool) : (selHash pool).isPanic = false := by
+  rcases selHash_hashPick pool with ⟨h, _⟩ | ⟨j, u, h, _⟩ <;> rw [h] <;> rfl
+
 end CaddyModel.C08
